@@ -247,7 +247,7 @@ def run_lifetime(cache, boot, calls, timeout=600):
     spec = {"use_cache": boot.get("use_cache", True), "crash": boot.get("crash"), "calls": calls}
     env = dict(os.environ)
     env["NUMBA_CACHE_DIR"] = cache
-    env["PYTHONPATH"] = "/repo:" + kernel.VERIF_DIR
+    env["PYTHONPATH"] = os.environ.get("DSIM_REPO", "/repo") + ":" + kernel.VERIF_DIR
     env["PYTHONHASHSEED"] = "0"
     env.pop("DATAITER_USE_NUMBA", None)
     env["NUMBA_NUM_THREADS"] = "1"
